@@ -76,6 +76,45 @@ func c09Pre(pre int) *stun.Message {
 		m.Add(stun.AttrType(0x8002), []byte{0, 1, 0, 0, 0, 2, 0, 0}) // PASSWORD-ALGORITHMS
 		m.Add(stun.AttrType(0x8003), []byte("example.org"))          // ALTERNATE-DOMAIN
 		return m
+	case 16, 17, 18, 19, 20, 21, 22:
+		// a Message that held one thing and now, without Reset, holds another: what it held BEFORE has no say in what a
+		// setter accepts now. 16-20: it held a FINGERPRINT and now holds a message without one (through Write, Decode,
+		// CloneTo, dropping the attribute and Encode, UnmarshalBinary); 21, 22: the other way round (Write, CloneTo)
+		withFP := func() *stun.Message {
+			return stun.MustBuild(stun.BindingRequest, tid, stun.NewUsername("u"), stun.NewSoftware("held before"), stun.Fingerprint)
+		}
+		plain := func() *stun.Message { return stun.MustBuild(stun.BindingRequest, tid, stun.NewUsername("u")) }
+		var m *stun.Message
+		var err error
+		switch pre {
+		case 16:
+			m = withFP()
+			_, err = m.Write(plain().Raw)
+		case 17:
+			m = withFP()
+			m.Raw = append(m.Raw[:0], plain().Raw...)
+			err = m.Decode()
+		case 18:
+			m = withFP()
+			err = plain().CloneTo(m)
+		case 19:
+			m = withFP()
+			m.Attributes = m.Attributes[:len(m.Attributes)-1]
+			m.Encode()
+		case 20:
+			m = withFP()
+			err = m.UnmarshalBinary(plain().Raw)
+		case 21:
+			m = plain()
+			_, err = m.Write(withFP().Raw)
+		case 22:
+			m = plain()
+			err = withFP().CloneTo(m)
+		}
+		if err != nil {
+			panic("c09Pre: " + err.Error())
+		}
+		return m
 	case 100, 101, 102, 103: // a message that is full, or nearly: what still fits is the precondition's business, what a setter refuses anyway is not
 		m := new(stun.Message)
 		m.TransactionID = [12]byte{1, 2, 3, 4, 5, 6, 7, 8, 9, 10, 11, 12}
@@ -234,7 +273,7 @@ func c09Setter(name string, n, pre int) (s stun.Setter, accept bool, classOK fun
 	case "port:OtherAddress":
 		return &stun.OtherAddress{IP: net.IPv4(192, 0, 2, 1).To4(), Port: n}, true, badIP, "ErrBadIPLength"
 	case "MessageIntegrity":
-		return stun.MessageIntegrity(bytesOf(n)), pre != 3 && pre != 5 && pre != 6 && pre != 7 && (pre < 9 || pre > 14), func(err error) bool { return errors.Is(err, stun.ErrFingerprintBeforeIntegrity) }, "ErrFingerprintBeforeIntegrity"
+		return stun.MessageIntegrity(bytesOf(n)), pre != 3 && pre != 5 && pre != 6 && pre != 7 && (pre < 9 || pre > 14) && pre != 21 && pre != 22, func(err error) bool { return errors.Is(err, stun.ErrFingerprintBeforeIntegrity) }, "ErrFingerprintBeforeIntegrity"
 	}
 	panic("c09: unknown setter " + name)
 }
@@ -407,7 +446,7 @@ func init() {
 					c.Sample(k)
 				}
 			}
-			for pre := 0; pre < 16; pre++ {
+			for pre := 0; pre < 23; pre++ {
 				for _, ts := range []struct {
 					name string
 					max  int
